@@ -20,6 +20,8 @@ const (
 	hexValNum       = 10
 	metaSeqLength   = 6
 	setDirectiveLen = 4
+	// maxIncludeDepth is the deepest nesting of $include directives followed.
+	maxIncludeDepth = 16
 )
 
 // Parser is a inputrc parser.
@@ -32,6 +34,7 @@ type Parser struct {
 	mode      string
 	keymap    string
 	line      int
+	depth     int
 	conds     []bool
 	errs      []error
 }
@@ -357,6 +360,15 @@ func (p *Parser) do(handler Handler, keyword, val string) error {
 			return nil
 		}
 
+		if p.depth >= maxIncludeDepth {
+			return &ParseError{
+				Name: p.name,
+				Line: p.line,
+				Text: "$include " + val,
+				Err:  ErrIncludeTooDeep,
+			}
+		}
+
 		path := expandIncludePath(val)
 		buf, err := handler.ReadFile(path)
 
@@ -367,7 +379,7 @@ func (p *Parser) do(handler Handler, keyword, val string) error {
 			return err
 		}
 
-		return Parse(bytes.NewReader(buf), handler, WithName(val), WithApp(p.app), WithTerm(p.term), WithMode(p.mode))
+		return Parse(bytes.NewReader(buf), handler, WithName(val), WithApp(p.app), WithTerm(p.term), WithMode(p.mode), withDepth(p.depth+1))
 	}
 
 	if !p.conds[len(p.conds)-1] {
@@ -428,6 +440,13 @@ func WithTerm(term string) Option {
 func WithMode(mode string) Option {
 	return func(p *Parser) {
 		p.mode = mode
+	}
+}
+
+// withDepth is a parser option to set the $include nesting depth.
+func withDepth(depth int) Option {
+	return func(p *Parser) {
+		p.depth = depth
 	}
 }
 
